@@ -5,8 +5,9 @@
     what is assumed about them is written out in each statement. *)
 From Coq Require Import ZArith List Bool Lia.
 Require Import LdkV.Crypto.Bytes LdkV.Crypto.Hmac LdkV.Crypto.ChaCha20.
-Require Import LdkV.Model.Sphinx LdkV.Model.OnionFail LdkV.Model.SphinxInst.
-Require Import LdkV.Proofs.C14 LdkV.Proofs.C14Fail LdkV.Proofs.C14Hold LdkV.Proofs.C14Inst.
+Require Import LdkV.Model.Sphinx LdkV.Model.OnionFail LdkV.Model.SphinxInst LdkV.Model.OnionPayload.
+Require Import LdkV.Gen.C14Guards.
+Require Import LdkV.Proofs.C14 LdkV.Proofs.C14Fail LdkV.Proofs.C14Hold LdkV.Proofs.C14Inst LdkV.Proofs.C14Payload LdkV.Proofs.C14Gen.
 Import ListNotations.
 Open Scope nat_scope.
 
@@ -14,30 +15,30 @@ Open Scope nat_scope.
 Theorem C14_peel_build :
   forall (payload : Type) (enc : payload -> bytes) (parse : bytes -> option (payload * bytes))
          (ks : bytes -> nat -> bytes) (hmac : bytes -> bytes -> bytes) (payload_ok : payload -> Prop),
-  (forall k n, length (ks k n) = n) ->
+  (forall k n, List.length (ks k n) = n) ->
   (forall k m n, m <= n -> firstn m (ks k n) = ks k m) ->
-  (forall k m, length (hmac k m) = 32) ->
+  (forall k m, List.length (hmac k m) = 32) ->
   (forall p r, payload_ok p -> parse (enc p ++ r) = Some (p, r)) ->
   forall (noise : bytes) (hs : list (hopkeys * payload)) (ad : bytes),
   hs <> [] ->
   Forall payload_ok (map snd hs) ->
-  total_len payload enc hs <= length noise ->
+  total_len payload enc hs <= List.length noise ->
   exists P0 : packet,
     build payload enc ks hmac noise hs ad = Some P0 /\
-    length (p_data P0) = length noise /\
-    length (p_hmac P0) = 32 /\
+    List.length (p_data P0) = List.length noise /\
+    List.length (p_hmac P0) = 32 /\
     (layers_nonzero payload enc ks hmac noise hs ad ->
-     delivers payload parse ks hmac (length noise) (map fst hs) ad P0 (map snd hs) /\
+     delivers payload parse ks hmac (List.length noise) (map fst hs) ad P0 (map snd hs) /\
      peel_route payload parse ks hmac (map fst hs) ad P0 = (map snd hs, None, true)).
 Proof. exact peel_build. Qed.
 
 (** Construction fails exactly for the empty route and for routes that do not fit. *)
 Theorem C14_build_fails_iff :
   forall (payload : Type) (enc : payload -> bytes) (ks : bytes -> nat -> bytes) (hmac : bytes -> bytes -> bytes),
-  (forall k n, length (ks k n) = n) ->
-  (forall k m, length (hmac k m) = 32) ->
+  (forall k n, List.length (ks k n) = n) ->
+  (forall k m, List.length (hmac k m) = 32) ->
   forall (noise : bytes) (hs : list (hopkeys * payload)) (ad : bytes),
-  build payload enc ks hmac noise hs ad = None <-> hs = [] \/ length noise < total_len payload enc hs.
+  build payload enc ks hmac noise hs ad = None <-> hs = [] \/ List.length noise < total_len payload enc hs.
 Proof. exact build_none_iff. Qed.
 
 (** A packet that is not rejected with the HMAC error carries [hmac mu (hop_data ++ payment_hash)]. *)
@@ -55,7 +56,7 @@ Theorem C14_tamper_rejected :
   forall (payload : Type) (parse : bytes -> option (payload * bytes)) (ks : bytes -> nat -> bytes)
          (hmac : bytes -> bytes -> bytes) (k : hopkeys) (ad ad' : bytes) (P P' : packet),
   peel payload parse ks hmac k ad P <> PeelErr HmacCheckFailed ->
-  length (p_data P') = length (p_data P) ->
+  List.length (p_data P') = List.length (p_data P) ->
   p_hmac P' = p_hmac P \/ (p_data P' = p_data P /\ ad' = ad) ->
   (P', ad') <> (P, ad) ->
   peel payload parse ks hmac k ad' P' = PeelErr HmacCheckFailed \/
@@ -66,16 +67,16 @@ Proof. exact tamper_rejected. Qed.
     the sender to that hop, with its code and data. *)
 Theorem C14_failure_attributed :
   forall (ks : bytes -> nat -> bytes) (hmac : bytes -> bytes -> bytes),
-  (forall k n, length (ks k n) = n) ->
-  (forall k m, length (hmac k m) = 32) ->
+  (forall k n, List.length (ks k n) = n) ->
+  (forall k m, List.length (hmac k m) = 32) ->
   forall (before : list (fkeys * Z)) (ki : fkeys) (after : list fkeys) (code : Z) (d : bytes) (hold_i : Z),
   (0 <= code < 65536)%Z ->
-  (2 + Z.of_nat (length d) < 65535)%Z ->
+  (2 + Z.of_nat (List.length d) < 65535)%Z ->
   no_spurious_match ks hmac (map fst before)
     (crypt_data ks ki (failure_plain hmac ki code d DEFAULT_MIN_FAILURE_PACKET_LEN)) ->
   fst (process_onion_failure ks hmac (map fst before ++ ki :: after)
          (failure_at_sender ks hmac before ki code d hold_i))
-  = Attributed (length before) code d.
+  = Attributed (List.length before) code d.
 Proof. exact failure_attributed. Qed.
 
 (** Whatever arrives: the sender names hop [j] only if the packet, with the layers of hops [0..j]
@@ -93,11 +94,11 @@ Proof. exact attribution_sound. Qed.
 
 (** Hold times, fulfilled payment: every hop (last one first) adds its hold time to the attribution
     data; the sender reads the hold times of the first [MAX_HOPS] hops in path order.  Unconditional
-    (any stream cipher with [length (ks k n) = n], any MAC with 32-byte tags). *)
+    (any stream cipher with [List.length (ks k n) = n], any MAC with 32-byte tags). *)
 Theorem C14_hold_times_fulfill :
   forall (ks : bytes -> nat -> bytes) (hmac : bytes -> bytes -> bytes),
-  (forall k n, length (ks k n) = n) ->
-  (forall k m, length (hmac k m) = 32) ->
+  (forall k n, List.length (ks k n) = n) ->
+  (forall k m, List.length (hmac k m) = 32) ->
   forall hops : list (fkeys * Z),
   hops <> [] ->
   Forall (fun kh => (0 <= snd kh < 2 ^ 32)%Z) hops ->
@@ -107,14 +108,15 @@ Theorem C14_hold_times_fulfill :
 Proof. exact hold_times_fulfill. Qed.
 
 (** Hold times, failed payment: the sender reads the hold times of the hops up to the failing one
-    (the first [MAX_HOPS] of them), under the side condition of attribution itself. *)
+    (the first [MAX_HOPS] of them), under the side condition of attribution itself; the bound on the
+    data is exact: 64529 data bytes make an [update_fail_htlc] of [LN_MAX_MSG_LEN] bytes. *)
 Theorem C14_hold_times_failure :
   forall (ks : bytes -> nat -> bytes) (hmac : bytes -> bytes -> bytes),
-  (forall k n, length (ks k n) = n) ->
-  (forall k m, length (hmac k m) = 32) ->
+  (forall k n, List.length (ks k n) = n) ->
+  (forall k m, List.length (hmac k m) = 32) ->
   forall (before : list (fkeys * Z)) (ki : fkeys) (after : list fkeys) (code : Z) (d : bytes) (hi : Z),
   (0 <= code < 65536)%Z ->
-  (Z.of_nat (length d) <= 64000)%Z ->
+  (Z.of_nat (List.length d) <= 64529)%Z ->
   (0 <= hi < 2 ^ 32)%Z ->
   Forall (fun kh => (0 <= snd kh < 2 ^ 32)%Z) before ->
   no_spurious_match ks hmac (map fst before)
@@ -124,6 +126,79 @@ Theorem C14_hold_times_failure :
   = firstn MAX_HOPS (map snd before ++ [hi]).
 Proof. exact hold_times_failure. Qed.
 
+(** Message-size boundary: a relaying hop keeps attribution data exactly when the failure's data has
+    at most 64567 bytes ([update_fail_htlc] of at most 65535 bytes), with or without incoming
+    attribution data. *)
+Theorem C14_relay_attribution_boundary :
+  forall (ks : bytes -> nat -> bytes) (hmac : bytes -> bytes -> bytes),
+  (forall k m, List.length (hmac k m) = 32) ->
+  forall (k : fkeys) (t : Z) (P : err_packet),
+  (e_attr P = None \/ exists e, e_attr P = Some e /\ ok_len e) ->
+  ((exists a, e_attr (wrap_failure ks hmac k t P) = Some a) <-> fits_wire (List.length (e_data P))).
+Proof. exact relay_attribution_boundary. Qed.
+
+(** Payload assembly: whatever the recipient fields (payment secret, metadata, keysend preimage,
+    invoice request, blinding point) and for every custom TLV set [RecipientCustomTlvs::new] admits,
+    the TLV stream of the payload is strictly ascending in its types. *)
+Theorem C14_payload_tlvs_ascending :
+  forall p : onion_payload,
+  custom_ok (customs_of p) -> strictly_ascending (map fst (payload_tlvs p)) = true.
+Proof. exact payload_ascending. Qed.
+
+(** The expressions rs2v regenerates from [onion_utils.rs] on every run are the ones the model uses. *)
+Theorem C14_gen_relay_guard :
+  forall p : err_packet,
+  keeps_attribution p = negb (g_relay_drops_attribution (Z.of_nat (update_fail_htlc_wire_len p))).
+Proof. exact gen_relay_guard. Qed.
+
+Theorem C14_gen_relay_guard_spec :
+  forall wire_len : Z, g_relay_drops_attribution wire_len = (65535 <? wire_len)%Z.
+Proof. exact gen_relay_guard_spec. Qed.
+
+Theorem C14_gen_constants :
+  G_LN_MAX_MSG_LEN = LN_MAX_MSG_LEN /\
+  G_MAX_HOPS = Z.of_nat MAX_HOPS /\ G_HOLD_TIME_LEN = Z.of_nat HOLD_TIME_LEN /\
+  G_HMAC_LEN = Z.of_nat HMAC_LEN /\ G_HMAC_COUNT = Z.of_nat HMAC_COUNT /\
+  G_DEFAULT_MIN_FAILURE_PACKET_LEN = Z.of_nat DEFAULT_MIN_FAILURE_PACKET_LEN /\
+  G_ONION_DATA_LEN = 1300%Z.
+Proof. exact gen_constants. Qed.
+
+Theorem C14_gen_positions :
+  forall cnt idx : nat, idx < cnt ->
+  Z.of_nat (cnt - idx - 1) = g_failure_position (Z.of_nat cnt) (Z.of_nat idx) /\
+  Z.of_nat (cnt - idx - 1) = g_fulfill_position (Z.of_nat cnt) (Z.of_nat idx) /\
+  g_failure_position_safe (Z.of_nat cnt) (Z.of_nat idx) = true /\
+  g_fulfill_position_safe (Z.of_nat cnt) (Z.of_nat idx) = true.
+Proof. exact gen_positions. Qed.
+
+Theorem C14_gen_hop_counts :
+  forall n : nat,
+  Z.of_nat (Nat.min n MAX_HOPS) = g_failure_hop_count (Z.of_nat n) /\
+  Z.of_nat (Nat.min n MAX_HOPS) = g_fulfill_hop_count (Z.of_nat n).
+Proof. exact gen_hop_counts. Qed.
+
+Theorem C14_gen_failure_lengths :
+  forall (hmac : bytes -> bytes -> bytes) (k : fkeys) (code : Z) (d : bytes) (m : nat),
+  List.length (hmac (fk_um k) (failure_body code d m)) = 32 ->
+  Z.of_nat (List.length (failure_plain hmac k code d m)) =
+  g_total_len (g_failure_len (Z.of_nat (List.length d)))
+              (g_pad_len (Z.of_nat m) (g_failure_len (Z.of_nat (List.length d)))).
+Proof. exact gen_failure_lengths. Qed.
+
+Theorem C14_gen_attr_indices :
+  forall hmac_idx position j : nat,
+  hmac_idx < MAX_HOPS -> position < MAX_HOPS -> j < MAX_HOPS ->
+  Z.of_nat (MAX_HOPS - hmac_idx - 1) = g_add_hmacs_position (Z.of_nat hmac_idx) /\
+  Z.of_nat (MAX_HOPS + MAX_HOPS - position - 1) = g_downstream_start (Z.of_nat position) /\
+  Z.of_nat (MAX_HOPS - j - 1) = g_downstream_block_size (Z.of_nat j) /\
+  Z.of_nat (MAX_HOPS - position - 1) = g_verify_hmac_idx (Z.of_nat position).
+Proof. exact gen_attr_indices. Qed.
+
+Theorem C14_gen_seek_pos :
+  forall N pos : nat, pos <= N -> (Z.of_nat N < 2 ^ 32)%Z ->
+  Z.of_nat (N - pos) = g_seek_pos (Z.of_nat N) (Z.of_nat pos) /\ g_seek_pos_safe (Z.of_nat N) (Z.of_nat pos) = true.
+Proof. exact gen_seek_pos. Qed.
+
 (** The same for the executable instance that is compared byte for byte with rust-lightning
     (ChaCha20 with the zero nonce, HMAC-SHA256, BigSize-framed payloads): no hypothesis on the
     primitives is left. *)
@@ -131,30 +206,30 @@ Theorem C14_ldk_peel_build :
   forall (noise : bytes) (hs : list (hopkeys * bytes)) (ad : bytes),
   hs <> [] ->
   Forall frame_ok (map snd hs) ->
-  i_total_len hs <= length noise ->
+  i_total_len hs <= List.length noise ->
   exists P0 : packet,
     i_build noise hs ad = Some P0 /\
-    length (p_data P0) = length noise /\
-    length (p_hmac P0) = 32 /\
+    List.length (p_data P0) = List.length noise /\
+    List.length (p_hmac P0) = 32 /\
     (i_layers_nonzero noise hs ad ->
-     i_delivers (length noise) (map fst hs) ad P0 (map snd hs) /\
+     i_delivers (List.length noise) (map fst hs) ad P0 (map snd hs) /\
      i_peel_route (map fst hs) ad P0 = (map snd hs, None, true)).
 Proof. exact ldk_peel_build. Qed.
 
 Theorem C14_ldk_build_fails_iff :
   forall (noise : bytes) (hs : list (hopkeys * bytes)) (ad : bytes),
-  i_build noise hs ad = None <-> hs = [] \/ length noise < i_total_len hs.
+  i_build noise hs ad = None <-> hs = [] \/ List.length noise < i_total_len hs.
 Proof. exact ldk_build_none_iff. Qed.
 
 Theorem C14_ldk_failure_attributed :
   forall (before : list (fkeys * Z)) (ki : fkeys) (after : list fkeys) (code : Z) (d : bytes) (hold_i : Z),
   (0 <= code < 65536)%Z ->
-  (2 + Z.of_nat (length d) < 65535)%Z ->
+  (2 + Z.of_nat (List.length d) < 65535)%Z ->
   no_spurious_match ks_chacha hmac_sha256 (map fst before)
     (crypt_data ks_chacha ki (failure_plain hmac_sha256 ki code d DEFAULT_MIN_FAILURE_PACKET_LEN)) ->
   fst (i_process_onion_failure (map fst before ++ ki :: after)
          (failure_at_sender ks_chacha hmac_sha256 before ki code d hold_i))
-  = Attributed (length before) code d.
+  = Attributed (List.length before) code d.
 Proof. exact ldk_failure_attributed. Qed.
 
 Theorem C14_ldk_hold_times_fulfill :
@@ -176,7 +251,7 @@ Definition ex_hops : list (hopkeys * bytes) :=
 Definition ex_noise : bytes := ks_chacha (ex_ss 9) 150.
 Definition ex_ad : bytes := ex_ss 7.
 
-Example C14_example_fits : (i_total_len ex_hops <=? length ex_noise) = true.
+Example C14_example_fits : (i_total_len ex_hops <=? List.length ex_noise) = true.
 Proof. vm_compute. reflexivity. Qed.
 
 Example C14_example_payloads_ok : Forall frame_ok (map snd ex_hops).
@@ -197,3 +272,9 @@ Example C14_example_no_spurious :
   no_spurious_match ks_chacha hmac_sha256 [ex_fkeys 1; ex_fkeys 2]
     (crypt_data ks_chacha (ex_fkeys 3) (failure_plain hmac_sha256 (ex_fkeys 3) 4103 [0; 17]%Z DEFAULT_MIN_FAILURE_PACKET_LEN)).
 Proof. vm_compute. split; [intros H; discriminate H|]. split; [intros H; discriminate H|exact I]. Qed.
+
+Example C14_example_payload_ascending :
+  let p := PBlindedReceive 1000 1000 800000 [1; 2; 3]%Z (Some [2; 5]%Z) (Some (repeat 7%Z 32))
+             [(6000000001, [9]); (70001, [1; 2])]%Z (Some [4; 4]%Z) in
+  map fst (payload_tlvs p) = [2; 4; 10; 12; 18; 70001; 77777; 5482373484; 6000000001]%Z.
+Proof. vm_compute. reflexivity. Qed.
